@@ -20,7 +20,17 @@ pub fn err_json(e: &IppParseError) -> J {
         IppParseError::IoError(e) => json!({"ok": false, "err": "Io", "kind": format!("{:?}", e.kind())}),
         // error values the library may grow later are still error values
         #[allow(unreachable_patterns)]
-        other => json!({"ok": false, "err": "Other", "text": format!("{other:?}")}),
+        other => {
+            // a variant that wraps an I/O error still carries its kind
+            let mut src: Option<&(dyn std::error::Error + 'static)> = std::error::Error::source(other);
+            while let Some(s) = src {
+                if let Some(io) = s.downcast_ref::<std::io::Error>() {
+                    return json!({"ok": false, "err": "Io", "kind": format!("{:?}", io.kind())});
+                }
+                src = s.source();
+            }
+            json!({"ok": false, "err": "Other", "text": format!("{other:?}")})
+        }
     }
 }
 
@@ -248,6 +258,23 @@ pub fn run(a: &Args) {
                     distinct.insert(fnv64(&bytes[..end]));
                     sink.emit(&ev, &json!({"case": cid, "abstract": case, "bytes": hex_full(&bytes[..bytes.len().min(3000)])}));
                     evals += 1;
+                    // "a byte outside the delimiter and value tag ranges where a tag is expected makes the message be
+                    // rejected, not skipped": the same stream with such a byte put at one of its tag positions (before a
+                    // delimiter, before a value inside a group, inside a collection, before the end tag), the rest following
+                    if var == 0 {
+                        let positions: Vec<usize> = (0..toks.len()).collect();
+                        let k = positions[(ci * 7 + 3) % positions.len()];
+                        let b = [0x4bu8, 0x5f, 0x7f, 0x80, 0xff, 0x60, 0xc3][(ci + k) % 7];
+                        let mut t2: Vec<Tok> = toks[..k].to_vec();
+                        t2.push(Tok::Bad(b));
+                        t2.extend_from_slice(&toks[k..]);
+                        let bytes2 = encode(ver, code, id, &t2);
+                        let (o2, _) = parse_sync(&bytes2, bytes2.len(), ci % 2 == 0);
+                        let cid2 = format!("{}-nontag", cid);
+                        sink.emit(&json!({"ev": "parse", "case": cid2, "hdr": hdr_json(Some((ver, code, id))), "toks": toks_json(&t2), "out": o2, "pay_ok": true}),
+                            &json!({"case": cid2, "what": format!("non-tag byte 0x{:02x} at the position of token {}", b, k), "bytes": hex_full(&bytes2[..bytes2.len().min(3000)])}));
+                        evals += 1;
+                    }
                 }
                 "C01" => {
                     let msg = conc_msg(&case["want"], &mut r, &dm);
